@@ -8,6 +8,10 @@ import (
 	"strings"
 	"time"
 
+	"github.com/wokdav/gopki/generator/config"
+	"github.com/wokdav/gopki/generator/db"
+	"github.com/wokdav/gopki/generator/db/filesystem"
+
 	"verif/mc/drive"
 	"verif/mc/engine"
 	"verif/mc/refcfg"
@@ -610,6 +614,9 @@ func c13Enumerate(tier string, yield func(any)) {
 	bases := c13Bases()
 	for i := range bases {
 		yield(&c13Case{Base: i, Kind: "stability"})
+		if i < 6 {
+			yield(&c13Case{Base: i, Kind: "api"})
+		}
 		yield(&c13Case{Base: i, Kind: "edits"})
 	}
 	{
@@ -641,6 +648,8 @@ func c13Exec(x *engine.Ctx, cc any) {
 	switch c.Kind {
 	case "stability":
 		c13Stability(x, base, h0, w0)
+	case "api":
+		c13API(x, base, h0, w0)
 	case "edits":
 		edits := c13Edits()
 		var n int64
@@ -789,6 +798,92 @@ func c13Feature(base, eb c13Base, names []string, field string) string {
 		f += " edit=" + strings.ReplaceAll(strings.SplitN(names[0], ":", 2)[1], " ", "-")
 	}
 	return f
+}
+
+// c13API: change detection through the library on one database handle. The settled directory is opened; the stored
+// configuration is put again unchanged (a generate-changed plan must stay empty) and then with another subject (the
+// entity must be planned, and after BulkUpdate its artifact stores another hash).
+func c13API(x *engine.Ctx, base c13Base, h0 string, w0 *simfs.World) {
+	w := w0.Clone()
+	alias := AliasOf(base.Cfg)
+	fsdb := filesystem.NewFilesystemDatabase(w)
+	w.BeginRun(nil)
+	if err := fsdb.Open(); err != nil {
+		x.Violation("C13/api/open-failed", err.Error())
+		return
+	}
+	defer fsdb.Close()
+	x.Nontrivial(base.Name + " api")
+	cfg, err := fsdb.GetConfig(alias)
+	if err != nil || cfg == nil {
+		x.Violation("C13/api/no-config", fmt.Sprint(err))
+		return
+	}
+	planned := func(l db.ChangeList) bool {
+		for _, ch := range l {
+			if ch.Alias == alias {
+				return true
+			}
+		}
+		return false
+	}
+	var perr error
+	var plan db.ChangeList
+	var panicked string
+	guard := func(f func()) {
+		defer func() {
+			if r := recover(); r != nil {
+				panicked = fmt.Sprint(r)
+			}
+		}()
+		f()
+	}
+	guard(func() {
+		if perr = fsdb.PutConfig(alias, *cfg); perr == nil {
+			plan, perr = db.PlanBulkUpdate(fsdb, db.UpdateChanged)
+		}
+	})
+	x.Transition(1)
+	if panicked != "" || perr != nil {
+		x.Violation("C13/api/plan-failed step=same-configuration", fmt.Sprintf("%v %s", perr, panicked))
+		return
+	}
+	if planned(plan) {
+		x.Violation("C13/api/unchanged-looks-changed", fmt.Sprintf("base %q: the stored configuration put again as it is, generate-changed plans %v", base.Name, plan))
+	}
+	nc := *cfg
+	subj, err := config.ParseRDNSequence("CN=Edited through the library, O=Org")
+	if err != nil {
+		x.Cap("subject: " + err.Error())
+		return
+	}
+	nc.Subject = subj
+	guard(func() {
+		if perr = fsdb.PutConfig(alias, nc); perr == nil {
+			plan, perr = db.PlanBulkUpdate(fsdb, db.UpdateChanged)
+		}
+	})
+	x.Transition(1)
+	if panicked != "" || perr != nil {
+		x.Violation("C13/api/plan-failed step=edited-configuration", fmt.Sprintf("%v %s", perr, panicked))
+		return
+	}
+	if !planned(plan) {
+		x.Violation("C13/api/edit-not-seen", fmt.Sprintf("base %q: another subject put through PutConfig on an open database, generate-changed plans %v", base.Name, plan))
+		return
+	}
+	guard(func() { _, perr = db.BulkUpdate(fsdb, plan) })
+	x.Transition(1)
+	if panicked != "" || perr != nil {
+		x.Violation("C13/api/update-failed", fmt.Sprintf("%v %s", perr, panicked))
+		return
+	}
+	if a := ReadArtifact(w, base.Cfg.Path); a.Pem == nil || a.Pem.HashLine == nil || *a.Pem.HashLine == h0 {
+		x.Violation("C13/api/stale-hash-after-reissue", fmt.Sprintf("base %q: re-issued under another subject, the artifact still stores %s", base.Name, h0))
+	}
+	// (what a further plan on the same handle says is not demanded: the handle keeps the hash it read when it was opened;
+	// a database opened afresh on the files is what a run sees, and that is checked by the in-place step of every edit)
+	x.Outcome("api edit")
 }
 
 func c13Stability(x *engine.Ctx, base c13Base, h0 string, w0 *simfs.World) {
@@ -1006,7 +1101,7 @@ func init() {
 	register(&engine.Check{
 		ID:          "C13",
 		Level:       "model_checking",
-		Rule:        fmt.Sprintf("%d base configurations (baseline, root, each optional field, 5 validity shapes, every extension kind with content, raw bodies, an extension list, manipulations; the same under a profile carrying validity and extensions) x (A) stability: re-read at another time and (for validities without from) on another calendar day simulated by a 26-hour shift of the local zone, as x.yaml / sub/dir/y.yml / z.JSON (JSON rendering), with the whole directory under doubly dotted names (pki.v1/<name>.v2.yaml), under two aliases, under a renamed profile -> identical #HASH line; in place: a later generate-changed run, a re-rendered identical configuration with comments and a consistently renamed profile plan nothing; with the artifact's hash line moved behind a remark, a blank line or the blocks an unchanged configuration plans nothing and an edited subject is seen; (B) sensitivity: each of %d single-field edits (set, unset, change of every certificate and profile field; extensions: change kind keeping the raw body, flip critical, change content, reorder, insert, delete, optional/override flips) - relevant iff the reference certificate model changes - must change the hash of a fresh run and make a generate-changed run regenerate the entity in place; all edit pairs on three bases (quick) / on every base (thorough). states = distinct (base, edit) worlds, transitions = in-place runs", len(bases), len(c13Edits())),
+		Rule:        fmt.Sprintf("%d base configurations (baseline, root, each optional field, 5 validity shapes, every extension kind with content, raw bodies, an extension list, manipulations; the same under a profile carrying validity and extensions) x (A) stability: re-read at another time and (for validities without from) on another calendar day simulated by a 26-hour shift of the local zone, as x.yaml / sub/dir/y.yml / z.JSON (JSON rendering), with the whole directory under doubly dotted names (pki.v1/<name>.v2.yaml), under two aliases, under a renamed profile -> identical #HASH line; in place: a later generate-changed run, a re-rendered identical configuration with comments and a consistently renamed profile plan nothing; with the artifact's hash line moved behind a remark, a blank line or the blocks an unchanged configuration plans nothing and an edited subject is seen; (B) sensitivity: each of %d single-field edits (set, unset, change of every certificate and profile field; extensions: change kind keeping the raw body, flip critical, change content, reorder, insert, delete, optional/override flips) - relevant iff the reference certificate model changes - must change the hash of a fresh run and make a generate-changed run regenerate the entity in place; all edit pairs on three bases (quick) / on every base (thorough). for six bases through the library on one open database: the stored configuration put again as it is (nothing planned), then with another subject (planned, re-issued with another stored hash). states = distinct (base, edit) worlds, transitions = in-place runs", len(bases), len(c13Edits())),
 		Bound:       map[string]string{"edits": "single on every base; pairs on 3 bases (quick) / all bases (thorough)"},
 		Assumptions: []string{"hash equality is demanded only for the four dimensions the statement lists (time, file name, own alias, profile name)", "edits between an omitted algorithm and its default are not used (documentation names two defaults)"},
 		Budget:      budgets(quickBudget, thoroughBudget),
